@@ -39,8 +39,10 @@ RULE = (
     "input/output digest)"
 )
 ASSUMPTIONS = [
-    "bilateral cases are restricted to odd effective window widths min(rows, cols, int(3*sigma_space+1)): an even "
-    "window has no centre and the statement does not define 'its window' for it",
+    "bilateral with an even effective window width min(rows, cols, int(3*sigma_space+1)): such a window has no centre "
+    "pixel; the two placements [p-w/2, p+w/2-1] and [p-w/2+1, p+w/2] are both accepted (the whole map must agree "
+    "with one of them), always with the spatial Gaussian measured from the pixel itself; the edge clause follows the "
+    "placement",
     "valid pixels hold finite disparities (a valid pixel with a NaN disparity is outside the statement)",
     "median values are exact (half-integer disparities); bilateral is compared with a float64 reference with "
     "|diff| <= 1e-5 * max(1, max |disparity|) and the [min, max] clause with 1e-6 of the same scale",
@@ -68,6 +70,21 @@ SIZES_T = [3, 5, 7, 9, 19, 49, 50, 51, 52, 99, 100, 101, 102, 149, 150, 151, 200
 # ----------------------------------------------------------------------------------------------
 # spaces
 # ----------------------------------------------------------------------------------------------
+LAYOUTS = ["C", "F", "view"]
+
+
+def relayout(a, layout):
+    """the same array values in another memory layout"""
+    if layout == "F":
+        return np.asfortranarray(a)
+    if layout == "view":
+        big = np.zeros(tuple(2 * n for n in a.shape), dtype=a.dtype)
+        v = big[tuple(slice(None, None, 2) for _ in a.shape)]
+        v[...] = a
+        return v
+    return a
+
+
 def _filters_small(rows, cols, na=3):
     out = [("median", {"filter_size": 1}), ("median", {"filter_size": 3}),
            ("bilateral", {"sigma_space": 0.7, "sigma_color": 1.0}),
@@ -81,8 +98,8 @@ def _filters_small(rows, cols, na=3):
 
 def _block_filters(tier):
     med = [3, 5] if tier == "quick" else [3, 5, 7, 9]
-    bil = [(0.7, 1.0), (1.5, 2.0), (6.0, 2.0)] if tier == "quick" else \
-        [(0.7, 1.0), (1.5, 2.0), (2.2, 0.5), (2.7, 4.0), (6.0, 2.0)]
+    bil = [(0.7, 1.0), (1.0, 2.0), (1.5, 2.0), (6.0, 2.0)] if tier == "quick" else \
+        [(0.7, 1.0), (1.0, 2.0), (1.5, 2.0), (2.2, 0.5), (2.7, 4.0), (3.0, 1.0), (6.0, 2.0)]
     return [("median", {"filter_size": f}) for f in med] + \
            [("bilateral", {"sigma_space": s, "sigma_color": c}) for s, c in bil]
 
@@ -109,13 +126,14 @@ def spaces(tier, seed):
             for m, c in _block_filters(tier):
                 if m == "median" and min(rows, cols) < c["filter_size"]:
                     continue  # see the undersized space
-                if m == "bilateral" and RF.bilateral_width(rows, cols, c["sigma_space"]) % 2 == 0:
-                    continue  # even window: excluded (ASSUMPTIONS)
                 k = rows * 3 + cols * 5 + seed
                 wide = m == "bilateral" and c["sigma_space"] >= 6
                 for lat in ([k % 3] if quick or wide else [k % 3, (k + 1) % 3]):
-                    blocks.append({"kind": "block", "rows": rows, "cols": cols, "method": m, "cfg": c, "lat": lat,
-                                   "off": (seed * 7 + k) % 17, "inv": (k + lat) % 3})
+                    # memory layout of the caller's arrays (C order / Fortran order / strided view of a larger
+                    # array): the same map, so the same result
+                    for layout in ([LAYOUTS[(k + lat) % 3]] if quick else [LAYOUTS[(k + lat) % 3], LAYOUTS[(k + lat + 1) % 3]]):
+                        blocks.append({"kind": "block", "rows": rows, "cols": cols, "method": m, "cfg": c, "lat": lat,
+                                       "off": (seed * 7 + k) % 17, "inv": (k + lat) % 3, "layout": layout})
     under = [{"kind": "under", "rows": r, "cols": c, "fs": fs}
              for fs in (3, 5, 7) for r in (1, 2, 3, 4, 5, 8) for c in (1, 2, 3, 4, 5, 8)
              if min(r, c) < fs]
@@ -222,9 +240,12 @@ def check_filter(method, cfg, before, after, viol, ctx, stats=None):
         tol = tolb = 0.0
     else:
         size = RF.bilateral_width(ny, nx, float(cfg["sigma_space"]))
-        exp, touched = RF.bilateral_fast(v, float(cfg["sigma_space"]), float(cfg["sigma_color"]), size)
         scale = max(1.0, float(np.nanmax(np.abs(v)))) if np.isfinite(v).any() else 1.0
         tol, tolb = 1e-5 * scale, 1e-6 * scale
+        if size % 2 == 0:
+            _check_even_bilateral(cfg, size, v, d0, d1, tol, bad, stats, ne)
+            return
+        exp, touched = RF.bilateral_fast(v, float(cfg["sigma_space"]), float(cfg["sigma_color"]), size)
     rad = size // 2
     valid = ~np.isnan(v)
     edge = valid & ~touched
@@ -250,6 +271,27 @@ def check_filter(method, cfg, before, after, viol, ctx, stats=None):
         r, c = np.argwhere(out)[0]
         bad("bounds", "", f"valid pixel ({r},{c}) became {float(d1[r, c])!r}, outside [{lo[r, c]}, {hi[r, c]}] of the valid "
             f"disparities of its window {_window(v, r, c, rad).tolist()}")
+    if stats is not None:
+        stats["changed"] = int(ne.sum())
+
+
+def _check_even_bilateral(cfg, size, v, d0, d1, tol, bad, stats, ne):
+    """even window: the whole map must agree with one of the two placements of a centre-less window"""
+    ny, nx = d0.shape
+    verdicts = []
+    for low in (True, False):
+        exp, touched = RF.bilateral_even(v, float(cfg["sigma_space"]), float(cfg["sigma_color"]), size, low)
+        with np.errstate(invalid="ignore"):
+            wrong = touched & ~(np.abs(d1.astype(np.float64) - exp) <= tol)
+        wrong |= ~touched & ~np.isnan(v) & ne  # valid pixel without a whole window in this placement: untouched
+        verdicts.append((low, wrong, exp))
+    if all(w.any() for _, w, _ in verdicts):
+        low, wrong, exp = min(verdicts, key=lambda t: int(t[1].sum()))
+        r, c = np.argwhere(wrong)[0]
+        bad("value", "even window", f"valid pixel ({r},{c}) of a {ny}x{nx} map, even window width {size}: got "
+            f"{float(d1[r, c])!r}; with the window placed {'[p-w/2, p+w/2-1]' if low else '[p-w/2+1, p+w/2]'} (the "
+            f"closer of the two placements, {int(wrong.sum())} pixels off) the weighted mean is {float(exp[r, c])!r}, "
+            f"was {float(d0[r, c])!r}")
     if stats is not None:
         stats["changed"] = int(ne.sum())
 
@@ -468,13 +510,18 @@ def block_map(rows, cols, lat, off, invk):
 
 def run_block(case):
     vals, vm = block_map(case["rows"], case["cols"], case["lat"], case["off"], case["inv"])
+    lay = case.get("layout", "C")
     return _one_map(case["method"], case["cfg"], vals, vm,
                     f"{case['method']} {case['cfg']} on the {case['rows']}x{case['cols']} position-coded map "
-                    f"(lattice {case['lat']}, offset {case['off']}, invalid value {INV_VALUES[case['inv']]})")
+                    f"(lattice {case['lat']}, offset {case['off']}, invalid value {INV_VALUES[case['inv']]}, "
+                    f"memory layout {lay})", lay)
 
 
-def _one_map(method, cfg, vals, vm, ctx):
+def _one_map(method, cfg, vals, vm, ctx, layout="C"):
     ds = D.disparity(vals, validity=vm, interval=[-3, 5])
+    if layout != "C":
+        ds["disparity_map"].data = relayout(ds["disparity_map"].data, layout)
+        ds["validity_mask"].data = relayout(ds["validity_mask"].data, layout)
     before = snap(ds)
     viol, stats = [], {}
     if not _apply(method, cfg, ds, vals.shape, viol, ctx):
@@ -483,7 +530,8 @@ def _one_map(method, cfg, vals, vm, ctx):
     check_filter(method, cfg, before, after, viol, ctx, stats)
     inv = (vm & INVALID_MASK) != 0
     nontrivial = bool(inv.any() and (~inv).any() and stats.get("changed"))
-    sigs = [f"{method}|{sorted(cfg.items())}|{vals.shape}|{_digest(vals, vm, after['disp'])}"] if nontrivial else []
+    sigs = [f"{method}|{sorted(cfg.items())}|{vals.shape}|{layout}|{_digest(vals, vm, after['disp'])}"] \
+        if nontrivial else []
     return {"n": 1, "sigs": sigs, "viol": _dedup(viol), "trivial": 0 if nontrivial else 1}
 
 
@@ -580,7 +628,11 @@ def run_mfi(case):
     check_filter("median_for_intervals", cfg, before, after, viol, ctx, stats)
     # the same filter applied directly on a copy of the dataset the step received
     ds = prev["left_disp"].copy(deep=True)
-    dctx = ctx.replace("inside pandora.run", "direct call")
+    lay = LAYOUTS[(rows + cols + case["fs"] + int(case["reg"])) % 3]
+    if lay != "C":
+        ds["confidence_measure"].data = relayout(ds["confidence_measure"].data, lay)
+        ds["disparity_map"].data = relayout(ds["disparity_map"].data, lay)
+    dctx = ctx.replace("inside pandora.run", f"direct call (memory layout {lay})")
     same = True
     if _apply("median_for_intervals", {k: v for k, v in cfg.items() if k != "filter_method"}, ds, (rows, cols), viol,
               dctx):
